@@ -3982,7 +3982,7 @@ class SchemaValidator:
                         if "default_edges" in action["operation"]:
                             for edge_key, default_edge_ref in action["operation"][
                                 "default_edges"
-                            ]:
+                            ].items():
                                 action["operation"]["default_edges"][
                                     edge_key
                                 ] = prepend_schema_ref(schema_id, default_edge_ref)
